@@ -25,14 +25,14 @@ FUNCTIONS_ENCODED = [
 ]
 BOUNDS = {
     'quick': 'lookup: every string of length <= 16 (z3 sequence theory on the AST of UnitsDB.lookup); parser: every token '
-             'sequence of length <= 3 over a 15-token alphabet with symbolic real numerals in base position; conversions: '
+             'sequence of length <= 3 over a 17-token alphabet with symbolic real numerals in base position; conversions: '
              'symbolic magnitudes over every ordered pair of 14 unit spellings',
     'thorough': 'parser: token sequences of length <= 4',
 }
 STUBS = ['regex tokeniser bypassed (token list injected; validated concretely)', 'float()/int() of the two numeral '
          'placeholders in parser.py return symbolic reals', 'print()/__str__ of quantities silenced']
 ASSUMPTIONS = ['float := real', 'no division by a zero magnitude, no 0**negative',
-               'numeral placeholders (symbolic magnitudes) only in base position; exponents from {2,3,-1,0.5}',
+               'numeral placeholders (symbolic magnitudes) only in base position; exponents from {2,3,-1,0.5,1.5}',
                'reading of a unit name: exact unit, else 1-letter SI prefix + unit, else "da" + unit',
                'unit/prefix tables are finite configuration; each entry compared concretely with an independent SI table']
 OUTSIDE = ['decimal -> float conversion of numerals by the regex tokeniser', 'strings longer than 16 in lookup',
@@ -166,7 +166,7 @@ def d_lookup():
 
 # ---- engine A: parser over token sequences -----------------------------------------------------------
 NAMES = ['m', 's', 'kJ', 'mol', 'K', 'zz']
-NUMS = ['2', '3', '-1', '0.5']
+NUMS = ['2', '3', '-1', '0.5', '1.5']
 SYMS = ['*', '/', '^', '(', ')']
 PLACE = ['N0']                                   # numeral placeholder -> symbolic real
 ALPHABET = NAMES + NUMS + SYMS + PLACE
